@@ -42,6 +42,8 @@ LEVEL_TEXT = ("Theorems over all message histories of the state-machine model: t
               "point, every counter equals the number of matching events, counters are monotone, the state metric follows the phase. Kernel-checked, "
               "axiom-free; tied to the real code by reading the rendered Prometheus exposition at random quiescent points of generated histories.")
 DESIGN_REF = "DESIGN.md section 6, C15"
-LEVEL_NOTE = ("Trusted: Coq kernel, extraction + OCaml driver, Rust harness and its parser of the Prometheus text. Router-handler and unit level metrics "
-              "(connected routers, per-type message counts, connections accepted/lost) and gate metrics are NOT in this model; see DESIGN.md.")
+LEVEL_NOTE = ("Trusted: Coq kernel, extraction + OCaml driver, Rust harness and its parser of the Prometheus text. Of the unit level metrics, connected "
+              "routers and connections accepted / lost are modelled in E2e/E2eModel.v (accepted = lost + connected for all histories; the rendered gauge "
+              "never exceeds it; known finding C15-4) and read from GET /metrics of a real pipeline by the `e2e` engine; per-type message counts and "
+              "gate metrics are NOT modelled; see DESIGN.md and design-notes/E2E.md.")
 TECHNIQUE = "Coq proof by invariant over message histories + model/implementation correspondence on rendered metrics"
